@@ -322,6 +322,10 @@ func nexusDims(data []byte) (ntax, nchar int64, okTax, okChar bool) {
 	dataNtax, dataNchar := int64(-1), int64(-1)
 	for _, cmd := range strings.Split(s, ";") {
 		cmd = strings.Join(strings.Fields(cmd), " ")
+		// the magic word is not followed by a semicolon: it heads the first command
+		if len(cmd) >= 6 && strings.EqualFold(cmd[:6], "#NEXUS") {
+			cmd = strings.TrimSpace(cmd[6:])
+		}
 		low := strings.ToLower(cmd)
 		if m := reBegin.FindStringSubmatch(cmd); m != nil {
 			block = strings.ToLower(m[1])
@@ -615,7 +619,43 @@ func genAli(t *rapid.T) gen.Ali {
 	for i := 0; i < n; i++ {
 		a.Rows = append(a.Rows, gen.Row{Name: genName(t, i), Seq: gen.SeqN(t, chars, l)})
 	}
+	// rare but legal text: valid multi-byte characters inside the residues, at the same
+	// columns of every row so that the rows keep one byte length and the file reaches the
+	// alphabet detection (short rows only: no line wrap can cut a character)
+	if rapid.IntRange(0, 7).Draw(t, "multibyte") == 0 {
+		lr := rapid.IntRange(1, 4).Draw(t, "Lrunes")
+		ncol := rapid.IntRange(1, lr).Draw(t, "mbcols")
+		cols := map[int]bool{}
+		for k := 0; k < ncol; k++ {
+			cols[rapid.IntRange(0, lr-1).Draw(t, "mbcol")] = true
+		}
+		for i := range a.Rows {
+			var sb strings.Builder
+			for j := 0; j < lr; j++ {
+				if cols[j] {
+					sb.WriteRune(twoByteRune(t))
+				} else {
+					sb.WriteByte(chars[rapid.IntRange(0, len(chars)-1).Draw(t, "c")])
+				}
+			}
+			a.Rows[i].Seq = sb.String()
+		}
+	}
 	return a
+}
+
+// twoByteRune draws a character encoded on two bytes: the Latin-1 supplement (whose second
+// byte covers 0xA1..0xBF and, after 0xC3, 0x80..0xBF), Latin Extended-A and Greek
+func twoByteRune(t *rapid.T) rune {
+	switch rapid.IntRange(0, 3).Draw(t, "mbrange") {
+	case 0:
+		return rune(rapid.IntRange(0xA1, 0xFF).Draw(t, "latin1"))
+	case 1:
+		return rune(rapid.IntRange(0x100, 0x17F).Draw(t, "latinA"))
+	case 2:
+		return rune(rapid.IntRange(0x370, 0x3FF).Draw(t, "greek"))
+	}
+	return rune(rapid.SampledFrom([]int{0xB5, 0xF5, 0x135, 0x175, 0xB7, 0xFF, 0xDF}).Draw(t, "mbspecial"))
 }
 
 var nameDict = []string{"7", "0001", "x_0001", "end", "END", "matrix", "data", "gap", "clustal", "CLUSTAL", "stockholm", "taxa", "begin", "a.b|c", "tenletters", "elevenchars"}
@@ -713,15 +753,50 @@ func emitNexus(t *rapid.T, a gen.Ali) string {
 	if a.Alphabet == "aa" {
 		dt = "protein"
 	}
-	fmt.Fprintf(&sb, "BEGIN %s;\nDIMENSIONS NTAX=%d NCHAR=%d;\nFORMAT DATATYPE=%s GAP=- MISSING=?;\nMATRIX\n", block, len(a.Rows), a.Length(), dt)
-	if rapid.Bool().Draw(t, "interleave") && a.Length() > 4 {
-		h := a.Length() / 2
+	// the symbols of the FORMAT command: usually the common ones, sometimes other single
+	// characters, sometimes a character of several bytes (which the rows then contain; NCHAR
+	// is the length of the rows as written, in bytes)
+	gapsym, missym := "-", "?"
+	switch rapid.IntRange(0, 7).Draw(t, "symbols") {
+	case 0:
+		gapsym, missym = "~", "!"
+	case 1:
+		gapsym = rapid.SampledFrom([]string{"·", "µ", "—", "é"}).Draw(t, "gapsym")
+	case 2:
+		missym = rapid.SampledFrom([]string{"·", "µ", "¿"}).Draw(t, "missym")
+	}
+	if gapsym != "-" || missym != "?" {
+		b := gen.Ali{Alphabet: a.Alphabet}
+		// half of the time the symbols sit in whole columns, so that every row holds them
+		// equally often and the rows keep one length even when a symbol takes several bytes
+		columnwise := rapid.Bool().Draw(t, "symbolcolumns")
+		col1 := rapid.IntRange(0, a.Length()-1).Draw(t, "gapcolumn")
+		col2 := rapid.IntRange(0, a.Length()-1).Draw(t, "missingcolumn")
 		for _, r := range a.Rows {
-			sb.WriteString(r.Name + " " + r.Seq[:h] + "\n")
+			seq := r.Seq
+			if columnwise {
+				raw := []byte(strings.NewReplacer("-", "A", "?", "A").Replace(seq))
+				raw[col1] = '-'
+				if col2 != col1 {
+					raw[col2] = '?'
+				}
+				seq = string(raw)
+			}
+			b.Rows = append(b.Rows, gen.Row{Name: r.Name, Seq: strings.NewReplacer("-", gapsym, "?", missym).Replace(seq)})
+		}
+		// rows keep one length only if every row holds the symbols equally often: when they do
+		// not, the file is simply one more malformed input
+		a = b
+	}
+	fmt.Fprintf(&sb, "BEGIN %s;\nDIMENSIONS NTAX=%d NCHAR=%d;\nFORMAT DATATYPE=%s GAP=%s MISSING=%s;\nMATRIX\n", block, len(a.Rows), a.Length(), dt, gapsym, missym)
+	if rapid.Bool().Draw(t, "interleave") && a.Length() > 4 {
+		// (rows may differ in byte length after a symbol replacement: cut each at its own half)
+		for _, r := range a.Rows {
+			sb.WriteString(r.Name + " " + r.Seq[:len(r.Seq)/2] + "\n")
 		}
 		sb.WriteString("\n")
 		for _, r := range a.Rows {
-			sb.WriteString(r.Name + " " + r.Seq[h:] + "\n")
+			sb.WriteString(r.Name + " " + r.Seq[len(r.Seq)/2:] + "\n")
 		}
 	} else {
 		for _, r := range a.Rows {
